@@ -51,3 +51,18 @@ impl<V> IndexMut<ResourceId> for IndexVec<ResourceId, V> {
 }
 
 type ResourceVec<T> = IndexVec<ResourceId, T>;
+
+// N14 (diverge mode) for IndexVec places and reads
+impl<V> HqIndex<ResourceId> for IndexVec<ResourceId, V> {
+    type Out = V;
+    spec fn hq_in(&self, i: ResourceId) -> bool { (i.0 as int) < self@.len() }
+    spec fn hq_at(&self, i: ResourceId) -> V { self@[i.0 as int] }
+    #[verifier::external_body]
+    fn hq_index(&self, i: ResourceId) -> (r: &V) { unimplemented!() }
+}
+impl<V> IndexVec<ResourceId, V> {
+    #[verifier::external_body]
+    fn hq_index_mut(&mut self, index: ResourceId) -> (r: &mut V)
+        ensures (index.0 as int) < old(self)@.len(), *r == old(self)@[index.0 as int], final(self)@ == old(self)@.update(index.0 as int, *final(r))
+    { unimplemented!() }
+}
